@@ -21,7 +21,7 @@ CONSTANTS MaxLen, Emit
 SymHash(m) == <<"H", m>>
 
 Kinds == {"good", "replayAcc", "replayRej", "replayAccFirst", "replayRejFirst", "stale", "wrongK", "wrongU",
-          "flipProof", "flipData", "garbage"}
+          "flipProof", "flipData", "garbage", "truncProof"}
 
 VARIABLES ctr,       \* nonce counter (all draws)
           hist,      \* attempt kinds so far
@@ -63,6 +63,7 @@ Attempt(k) ==
          [] k = "flipProof" -> <<cd, <<"flip", good>> >>
          [] k = "flipData"  -> << <<200 + ctr, 0>>, good>>
          [] k = "garbage"   -> <<cd, <<"junk", ctr>> >>
+         [] k = "truncProof" -> <<cd, <<"trunc", good>> >>      \* a prefix of the good proof, the rest zeroed
 
 Try(k) ==
     /\ Len(hist) < MaxLen
